@@ -82,6 +82,25 @@ def extra_seeds_for(cls):
     return registry.composed_examples(cls)
 
 
+INFLATED_SEEDS = 4
+
+
+def numeric_fields(cls, seed):
+    """[(offset, width)] of the fixed-width quantities the parser reads from an accepted seed: cutting the seed at the
+    offset is answered with NotEnoughData(width), one byte later with width - 1 (same detector as C19's probes)."""
+    errors = lib.errors()
+    needed = []
+    for pos in range(len(seed)):
+        outcome = lib.call(cls.parse_immutable, seed[:pos])
+        needed.append(outcome.exc.bytes_needed if not outcome.ok and isinstance(outcome.exc, errors.NotEnoughData) else None)
+    found = []
+    for pos, width in enumerate(needed):
+        if width in (1, 2, 3, 4, 8) and pos + width <= len(seed) and (pos == 0 or needed[pos - 1] != width + 1):
+            if width == 1 or needed[pos + 1] == width - 1:
+                found.append((pos, width))
+    return found
+
+
 def _shard(arg):
     index, seed_value, per_target, budget_s = arg
     started = time.time()
@@ -111,6 +130,15 @@ def _shard(arg):
         for seed in base:
             for prefix in mutate.truncations(seed):
                 _evaluate(stats, target, 'immutable', prefix, 'prefix', accepted[seed])
+        # 1b. inflated variants of the accepted seeds (extreme numbers, long labels, deep nesting, calendar edges)
+        #     and extreme values in every fixed-width numeric field the parser reads
+        for seed in [s for s in base if accepted[s]][:INFLATED_SEEDS]:
+            for name, data in mutate.inflations(seed):
+                _evaluate(stats, target, 'immutable', data, 'inflated:' + name.split('-')[0], True)
+            if target.is_class and not mutate.looks_textual(seed) and len(seed) <= 1500:
+                fields = numeric_fields(target.cls, seed)
+                for name, data in mutate.field_extremes(seed, fields[:48]):
+                    _evaluate(stats, target, 'immutable', data, 'inflated:' + name, True)
         # 2. mutants
         text = None
         for number in range(per_target):
